@@ -2,7 +2,9 @@ package main
 
 import (
 	"context"
+	"fmt"
 	"math"
+	"os"
 	"runtime"
 	"strings"
 	"sync"
@@ -37,6 +39,28 @@ func drain(ch chan int) []int {
 
 func driveChans(plan []M, out *Out, _ []string) {
 	for _, c := range plan {
+		// Expected outcomes of the timed scenarios rely on margins of real time (a 30 ms deadline against a peer that arrives after
+		// a second, ...).  If the heartbeat shows that the process stalled while a scenario ran, it is run again; a scenario
+		// that stalled every time is recorded as such and judged by nothing.
+		var e M
+		for attempt := 0; attempt < 5; attempt++ {
+			stallReset()
+			e = chanScenario(c)
+			e["stalled"] = false
+			if stallMax() < 250*time.Millisecond || str(c, "op") == "SendDeadlineRace" {
+				break
+			}
+			e["stalled"] = true
+			if os.Getenv("VERIF_DEBUG") != "" {
+				fmt.Fprintln(os.Stderr, "stall", stallMax(), str(c, "op"))
+			}
+		}
+		out.Emit(e)
+	}
+}
+
+func chanScenario(c M) M {
+	{
 		op, cp, fill, closed, limit := str(c, "op"), num(c, "cap"), num(c, "fill"), boolean(c, "closed"), num(c, "limit")
 		reallimit := limit
 		if h, ok := c["huge"]; ok { // limits at the top of the int range; written as 2^30 in the trace (TLC integers are 32-bit)
@@ -102,8 +126,7 @@ func driveChans(plan []M, out *Out, _ []string) {
 			close(stop)
 			e["n"], e["limit"], e["pending"] = rounds, sent, bad
 			e["panic"] = ""
-			out.Emit(e)
-			continue
+			return e
 		}
 		if op == "RecvCloseRace" {
 			// an empty open channel, one RecvTimeout(3ms) caller, and a goroutine that closes the channel right around that
@@ -120,15 +143,13 @@ func driveChans(plan []M, out *Out, _ []string) {
 			}()
 			time.Sleep(3*time.Millisecond + off)
 			close(ch)
-			select {
-			case r := <-res:
+			if r, ok := patientRecv(res, 2*time.Second); ok {
 				e["v"], e["ok"] = r[0], r[1] == 1
-			case <-time.After(2 * time.Second):
+			} else {
 				e["blocked"] = true
 			}
 			e["panic"] = ""
-			out.Emit(e)
-			continue
+			return e
 		}
 		if op == "RecvRace" || op == "SendRace" {
 			// n callers released together on one channel: RecvRace: `fill` values queued (channel closed or open), every caller
@@ -162,9 +183,7 @@ func driveChans(plan []M, out *Out, _ []string) {
 			done := make(chan struct{})
 			go func() { wg.Wait(); close(done) }()
 			blocked := 0
-			select {
-			case <-done:
-			case <-time.After(2 * time.Second):
+			if _, ok := patientRecv(done, 2*time.Second); !ok {
 				for i := range finished {
 					if !finished[i] {
 						blocked++
@@ -179,8 +198,7 @@ func driveChans(plan []M, out *Out, _ []string) {
 				e["rest"] = drain(ch)
 			}
 			e["n"], e["vs"], e["oks"], e["nblocked"], e["panic"] = n, vs, oks, blocked, ""
-			out.Emit(e)
-			continue
+			return e
 		}
 		if op == "RecvQueued" || op == "RecvQueuedFull" {
 			stop := make(chan struct{})
@@ -195,7 +213,7 @@ func driveChans(plan []M, out *Out, _ []string) {
 				}(fill + p)
 			}
 			if pending > 0 {
-				waitParked("driveChans", pending, 3*time.Second)
+				waitParked("chanScenario", pending, 3*time.Second)
 			}
 			if closed {
 				close(ch)
@@ -220,9 +238,7 @@ func driveChans(plan []M, out *Out, _ []string) {
 					}
 				})
 			}()
-			select {
-			case <-done:
-			case <-time.After(5 * time.Second):
+			if _, ok := patientRecv(done, 5*time.Second); !ok {
 				e["blocked"] = true
 			}
 			if pending > 0 {
@@ -232,8 +248,7 @@ func driveChans(plan []M, out *Out, _ []string) {
 			if !e["blocked"].(bool) {
 				e["rest"] = drain(ch)
 			}
-			out.Emit(e)
-			continue
+			return e
 		}
 		// ---- timed helpers ----
 		if closed {
@@ -275,7 +290,7 @@ func driveChans(plan []M, out *Out, _ []string) {
 		}
 		if peer == "ready" {
 			startPeer(0)
-			waitParked("driveChans", 1, 3*time.Second) // until the peer really waits on the channel (state read from the runtime)
+			waitParked("chanScenario", 1, 3*time.Second) // until the peer really waits on the channel (state read from the runtime)
 		} else if peer == "later" {
 			startPeer(lateDelay)
 		}
@@ -320,9 +335,7 @@ func driveChans(plan []M, out *Out, _ []string) {
 				startPeer(0)
 			}
 		}
-		select {
-		case <-done:
-		case <-time.After(8 * time.Second):
+		if _, ok := patientRecv(done, 8*time.Second); !ok {
 			e["blocked"] = true
 		}
 		cancel()
@@ -353,7 +366,7 @@ func driveChans(plan []M, out *Out, _ []string) {
 		if _, ok := e["panic"]; !ok {
 			e["panic"] = ""
 		}
-		out.Emit(e)
+		return e
 	}
 }
 
